@@ -163,6 +163,7 @@ impl Mon {
         nb.handed_persist.clear();
         nb.lead_tail = 0;
         nb.u_true = 0;
+        nb.ent_len.clear();
         nb.caps.clear();
         nb.min_anchor.clear();
         nb.snap_out.clear();
@@ -254,6 +255,7 @@ impl Mon {
             let nb = &mut self.b.nb[ni];
             nb.lead_tail = post.last_index.saturating_sub(1);
             nb.u_true = 0;
+            nb.ent_len.clear();
             nb.min_anchor.clear();
             nb.snap_out.clear();
             nb.snap_req.clear();
